@@ -96,7 +96,8 @@ EXPORT errno_t _memcpy16_s_chk(uint16_t *dest, rsize_t dmax,
     }
     CHK_DEST_MEM_NULL("memcpy16_s")
     CHK_DMAX_MEM_ZERO("memcpy16_s")
-    smax = slen * 2;
+    /* an slen whose size in bytes would wrap around is above every limit */
+    smax = unlikely(slen > RSIZE_MAX_MEM) ? (size_t)-1 : slen * 2;
     if (destbos == BOS_UNKNOWN) {
         CHK_DMAX_MEM_MAX("memcpy16_s", RSIZE_MAX_MEM)
         BND_CHK_PTR_BOUNDS(dest, dmax);
